@@ -574,6 +574,13 @@ func cvLog(r *rng, s *sink, maxLaps, maxRows int, withOBD bool, baseSec int64) (
 							obdVals[i] = pick(r, []string{"0", "0.0", "-0.0"})
 						}
 					}
+					if r.chance(1, 12) {
+						// a fresh reading in which every channel reads zero (engine off, car halted) is a reading
+						for i := range obdVals {
+							obdVals[i] = pick(r, []string{"0", "0.0", "0.000"})
+						}
+						s.count("cv.obd.all_zero")
+					}
 				} else if gu {
 					needed++
 				}
@@ -752,6 +759,10 @@ func corpusCV(cfg *config) []string {
 		mk("conv", "-", "def", "Time,UTC Time,GPS_Update,OBD_Update,Engine Speed (RPM) *OBD\n0.000,100.000,1,0,1000\n# Lap 0: 00:00:01.000\n1.000,101.000,1,0,1000\n# Lap 1: 00:00:01.000\n2.000,102.000,1,0,1000\n"),
 		// interpolation between two fresh readings
 		mk("conv", "-", "def", "Time,UTC Time,GPS_Update,OBD_Update,Engine Speed (RPM) *OBD\n0.000,100.000,1,1,1000\n# Lap 0: 00:00:01.000\n1.000,101.000,1,0,1000\n1.500,101.500,1,0,1000\n# Lap 1: 00:00:01.000\n2.000,102.000,1,1,5000\n"),
+		// a fresh reading whose channels all read zero, between two others (the car halted, throttle closed)
+		mk("conv", "-", "def", "Time,UTC Time,Lap,GPS_Update,Latitude,Longitude,OBD_Update,Vehicle Speed (km/h) *OBD,Throttle Position (%) *OBD\n"+
+			"0.000,100.000,0,1,0.0000000,0.0000000,1,50,20\n# Lap 0: 00:00:01.000\n1.000,101.000,1,1,0.0000000,0.0000000,1,60,30\n2.000,102.000,1,1,0.0000000,0.0000000,0,60,30\n"+
+			"3.000,103.000,1,1,0.0000000,0.0000000,1,0,0\n4.000,104.000,1,1,0.0000000,0.0000000,0,0,0\n5.000,105.000,1,1,0.0000000,0.0000000,1,40,50\n# Lap 1: 00:00:05.000\n6.000,106.000,2,1,0.0000000,0.0000000,1,40,50\n"),
 		// a log with OBD channels, but none of rpm / speed / throttle / coolant: intake temperature and manifold pressure only
 		mk("conv", "-", "def", "Time,UTC Time,Lap,GPS_Update,Latitude,Longitude,OBD_Update,Intake Air Temp (C) *OBD,Intake Manifold Pressure (kPa) *OBD\n"+
 			"0.000,100.000,0,1,0.0000000,0.0000000,1,30.1,101.000\n# Lap 0: 00:00:01.000\n1.000,101.000,1,1,0.0000000,0.0000000,1,32.6,150.504\n2.000,102.000,1,1,0.0000000,0.0000000,1,33.4,149.250\n# Lap 1: 00:00:02.000\n3.000,103.000,2,1,0.0000000,0.0000000,1,31.0,120.000\n"),
